@@ -51,6 +51,13 @@ Theorem caller_can_step :
 Proof. intros n s i R. apply caller_enabled. eapply Inv_reach; eauto. Qed.
 Print Assumptions caller_can_step.
 
+(** when every worker is asleep, between lookups or gone, no caller is waiting for a wake-up *)
+Theorem quiescent_nobody_waits :
+  forall n s, reach n s -> (forall e, e < nps s -> notify_ahead (wc (pss s e)) = false) ->
+  forall i e, wts s i <> AReg e false.
+Proof. intros n s R. apply quiescent_nobody_waits. eapply Inv_reach; eauto. Qed.
+Print Assumptions quiescent_nobody_waits.
+
 (** Released with a path or an error, neither out of thin air: a path only if some lookup for
     the pair returned paths, a fetch error only if some lookup failed, "task exited: r" only if
     a worker ran its exit block with reason r. *)
@@ -113,14 +120,15 @@ Proof.
 Qed.
 Print Assumptions exited_handle_reports_error.
 
+(** the relaxed semantics used to check multi-thread traces accepts every trace of the strict
+    semantics (it only trusts more observations, it never demands more) *)
+Theorem relaxed_accepts_strict :
+  forall l s s', step true l s = Some s' -> step false l s = Some s'.
+Proof. exact strict_step_relaxed. Qed.
+Print Assumptions relaxed_accepts_strict.
+
 (** non-vacuity: a reachable state with three callers registered and unnotified while the
     lookup runs, and the run from there that releases them *)
-Definition ex_prefix : list label :=
-  [LPeek 0 KPath false; LEnsure 0 true 0; LLoad1 0 false; LCheck 0 false;
-   LPeek 1 KPath false; LEnsure 1 false 0; LBegin 0; LLoad1 1 false; LCheck 1 false;
-   LPeek 2 KPath false; LEnsure 2 false 0; LLoad1 2 false; LCheck 2 false].
-Definition ex_suffix : list label :=
-  [LFetched 0 FOk; LSetErr 0; LSlot 0 true; LComplete 0; LWake 1; LLoad2 1 true].
 Example ex_registered :
   exists s, reach 3 s /\ wts s 0 = AReg 0 false /\ wts s 1 = AReg 0 false /\ wts s 2 = AReg 0 false /\
             exists s', run true ex_suffix s = Some s' /\ wts s' 1 = ADone RPath /\ wts s' 2 = AReg 0 true.
@@ -130,3 +138,29 @@ Proof.
   vm_compute in H. injection H as <-. vm_compute. repeat split.
   eexists. repeat split.
 Qed.
+
+(** non-vacuity of the after-drop theorems: a reachable state in which the manager is gone while
+    a worker sleeps and another has not run yet; four steps each later both have terminated *)
+Example ex_dropped :
+  exists s, reach 2 s /\ alive s = false /\ nps s = 2 /\
+            wc (pss s 0) = WSleeping /\ wc (pss s 1) = WInit /\
+            exists s', run true ex_drop_suffix s = Some s' /\
+                       wc (pss s' 0) = WExited /\ wc (pss s' 1) = WExited /\
+                       cerr (pss s' 0) = Some (EExit XCancelled) /\ cerr (pss s' 1) = Some (EExit XMgrDropped).
+Proof.
+  destruct (run true ex_drop_prefix (init 2)) as [s|] eqn:H; [|vm_compute in H; discriminate].
+  exists s. split; [eapply run_reach; [constructor|exact H]|].
+  vm_compute in H. injection H as <-. vm_compute. repeat split.
+  eexists. repeat split.
+Qed.
+
+(** From woken to released: along ANY run, once a caller that is past its wait has taken three
+    steps of its own it holds its result.  Together with [wakeup_within_bounded_worker_steps] and
+    the two "can step" theorems: in every fair run in which the lookup terminates, every waiting
+    caller is released. *)
+Theorem released_within_bounded_caller_steps :
+  forall s tr s' i,
+    run true tr s = Some s' -> passed (wts s i) = true ->
+    cdist (wts s i) <= count_l (is_caller i) tr -> exists r, wts s' i = ADone r.
+Proof. intros s tr s' i. apply released_within_run. Qed.
+Print Assumptions released_within_bounded_caller_steps.
